@@ -493,7 +493,8 @@ pub fn esds_of(e: &EsdsS, len_pad: usize) -> Esds {
         max_bitrate: e.max_bitrate,
         avg_bitrate: e.avg_bitrate,
         asc: enc_asc(e.profile, e.freq_index, 0, e.chan_conf),
-        len_pad,
+        len_pad: len_pad & 0xff,
+        priority: (len_pad >> 8) as u8,
     }
 }
 
@@ -552,7 +553,99 @@ fn cc_any() -> impl Strategy<Value = Cc> {
     ]
 }
 pub fn text() -> impl Strategy<Value = String> {
-    prop_oneof![4 => Just(String::new()), 8 => "[ -~]{1,12}", 4 => "[^\\x00]{1,6}", 1 => "[ -~]{60,300}", 2 => counted_lookalike()]
+    prop_oneof![4 => Just(String::new()), 8 => "[ -~]{1,12}", 4 => "[^\\x00]{1,6}", 1 => "[ -~]{60,300}", 2 => counted_lookalike(), 1 => dict_text()]
+}
+
+/// String literals of the library's own sources (harvested from the working tree at run time),
+/// grouped by source file: the magic values the code compares its input with.
+pub fn source_literals() -> &'static Vec<Vec<String>> {
+    static LITS: std::sync::OnceLock<Vec<Vec<String>>> = std::sync::OnceLock::new();
+    // (the first element of every group is the file stem, e.g. "emsg" for mp4box/emsg.rs)
+    LITS.get_or_init(|| {
+        fn walk(dir: &std::path::Path, out: &mut Vec<std::path::PathBuf>) {
+            if let Ok(rd) = std::fs::read_dir(dir) {
+                let mut es: Vec<_> = rd.filter_map(|e| e.ok()).map(|e| e.path()).collect();
+                es.sort();
+                for p in es {
+                    if p.is_dir() {
+                        walk(&p, out);
+                    } else if p.extension().map(|x| x == "rs").unwrap_or(false) {
+                        out.push(p);
+                    }
+                }
+            }
+        }
+        let mut files = Vec::new();
+        walk(std::path::Path::new(env!("VERIF_REPO_SRC")), &mut files);
+        let mut groups = Vec::new();
+        for f in files {
+            let Ok(src) = std::fs::read_to_string(&f) else { continue };
+            // only the part before the unit tests
+            let src = src.split("#[cfg(test)]").next().unwrap_or("");
+            let mut lits: Vec<String> = Vec::new();
+            let b = src.as_bytes();
+            let mut i = 0;
+            while i < b.len() {
+                if b[i] == b'"' {
+                    let mut j = i + 1;
+                    let mut ok = true;
+                    while j < b.len() && b[j] != b'"' {
+                        if b[j] == b'\\' || b[j] == b'\n' {
+                            ok = false;
+                        }
+                        j += 1;
+                    }
+                    if ok && j < b.len() && j - i - 1 >= 2 && j - i - 1 <= 80 {
+                        if let Ok(t) = std::str::from_utf8(&b[i + 1..j]) {
+                            if !t.contains('{') && !lits.iter().any(|x| x == t) {
+                                lits.push(t.to_string());
+                            }
+                        }
+                    }
+                    i = j + 1;
+                } else {
+                    i += 1;
+                }
+            }
+            if !lits.is_empty() {
+                let stem = f.file_stem().map(|x| x.to_string_lossy().to_string()).unwrap_or_default();
+                lits.insert(0, stem);
+                groups.push(lits);
+            }
+        }
+        if groups.is_empty() {
+            groups.push(vec!["isom".to_string()]);
+        }
+        groups
+    })
+}
+
+pub fn dict_text() -> impl Strategy<Value = String> {
+    (any::<u16>(), any::<u16>()).prop_map(|(g, i)| {
+        let lits = source_literals();
+        let grp = &lits[(g as usize * lits.len()) >> 16];
+        grp[(i as usize * grp.len()) >> 16].clone()
+    })
+}
+
+/// (text, text, bytes) whose magic values come from ONE source file: code that recognises a format
+/// by a URI in one field and a signature in another needs both at once
+/// `kind`: the group of the source file named after the box kind is preferred (3 draws in 4)
+pub fn dict_triple(kind: &'static str) -> impl Strategy<Value = (String, String, Vec<u8>)> {
+    (any::<u16>(), any::<[u16; 3]>(), prop_oneof![1 => Just(Vec::new()), 4 => (0usize..16).prop_map(|n| vec![0u8; n]), 2 => prop::collection::vec(any::<u8>(), 0..16), 1 => (4usize..16).prop_map(|n| (0..n).map(|k| (k % 4) as u8).collect::<Vec<u8>>())], 0u8..4).prop_map(move |(g, ix, tail, how)| {
+        let lits = source_literals();
+        let own = lits.iter().position(|grp| grp[0] == kind);
+        let grp = match own {
+            Some(i) if g % 8 != 0 => &lits[i],
+            _ => &lits[(g as usize * lits.len()) >> 16],
+        };
+        let pick = |x: u16| grp[(x as usize * grp.len()) >> 16].clone();
+        let a = pick(ix[0]);
+        let b = if how & 1 == 0 { String::new() } else { pick(ix[1]) };
+        let mut data = pick(ix[2]).into_bytes();
+        data.extend_from_slice(&tail);
+        (a, b, data)
+    })
 }
 
 /// Strings that look like a counted (Pascal / QuickTime) string: the first byte equals the number
@@ -764,7 +857,7 @@ pub fn strategy(kind: &str, max: usize) -> BoxedStrategy<Spec> {
         "trun" => trun_s(max).prop_map(Spec::Trun).boxed(),
         "traf" => (bx(strategy("tfhd", max)), obx(strategy("tfdt", max)), obx(strategy("trun", max))).prop_map(|(tfhd, tfdt, trun)| Spec::Traf { tfhd, tfdt, trun }).boxed(),
         "moof" => (bx(strategy("mfhd", max)), prop::collection::vec(strategy("traf", max), 0..=max.min(2))).prop_map(|(mfhd, trafs)| Spec::Moof { mfhd, trafs }).boxed(),
-        "emsg" => (ver01(), flags24(), u32v(), u64v(), u32v(), u32v(), u32v(), text(), text(), bytes(9)).prop_map(|(version, flags, timescale, ptime, pdelta, event_duration, id, scheme, value, data)| Spec::Emsg { version, flags, timescale, ptime, pdelta, event_duration, id, scheme, value, data }).boxed(),
+        "emsg" => (ver01(), flags24(), u32v(), u64v(), u32v(), u32v(), u32v(), prop_oneof![1 => (text(), text(), bytes(9)), 1 => dict_triple("emsg")]).prop_map(|(version, flags, timescale, ptime, pdelta, event_duration, id, (scheme, value, data))| Spec::Emsg { version, flags, timescale, ptime, pdelta, event_duration, id, scheme, value, data }).boxed(),
         "data" => data_s().prop_map(Spec::Data).boxed(),
         "ilst" => items_s().prop_map(|items| Spec::Ilst { items }).boxed(),
         "meta" => meta_s().prop_map(Spec::Meta).boxed(),
